@@ -69,6 +69,7 @@ def run(cx):
     from . import scalar_rules as SR
     _run2(cx)
     SR.sm9_scalar(cx)
+    SR.acc_rules(cx, 'sm9')
     SR.curve_predicates(cx)
 
 
